@@ -50,14 +50,14 @@ type c15StepResult struct {
 }
 
 type c15CrashWitness struct {
-	Case     c15CrashCase    `json:"case"`
-	KillAt   int             `json:"kill_at"`
-	Applied  bool            `json:"applied"`
-	Order    string          `json:"recovery_order"`
-	Steps    []c15StepResult `json:"steps"`
-	Registry string          `json:"registry_now"`
+	Case     c15CrashCase      `json:"case"`
+	KillAt   int               `json:"kill_at"`
+	Applied  bool              `json:"applied"`
+	Order    string            `json:"recovery_order"`
+	Steps    []c15StepResult   `json:"steps"`
+	Registry string            `json:"registry_now"`
 	Docs     map[string]string `json:"config_docs_now"`
-	Ops      []string        `json:"storage_ops"`
+	Ops      []string          `json:"storage_ops"`
 }
 
 // c15RunPrefix replays the prefix on fresh nodes (each interrupted step leaves its node dead for good).
@@ -220,8 +220,10 @@ func c15RunCrashScenario(run *vlib.Run, cl *c15Cluster, cs c15CrashCase, k int, 
 			run.Distinct("recovery_crash_points", rlabel)
 		}
 		w.Steps = append(w.Steps, c15StepResult{Step: fmt.Sprintf("reload on fresh node which dies during recovery [%s] err=%v", rlabel, lerr), Node: fresh.Name, Model: m.String()})
-		sigTail += "|recovery-crash=" + rlabel
-		label += " + " + rlabel
+		if fresh.conn.Dead() {
+			sigTail += "|recovery-crash=" + rlabel
+			label += " + " + rlabel
+		}
 		fresh = cl.NewNode()
 		nodes = []*c15Node{a, fresh}
 		names = []string{"same", "fresh"}
